@@ -10,7 +10,9 @@ CFG = dict(
                 "unsigned char and long keys, and compares every bin and the total with a std::map built by the obvious loop over "
                 "the harness's own copy of the channel values; then cumulative_histogram (value, monotone, last bin), normalize, "
                 "sub_histogram over axis subsets (marginal bins and mass) and over a key range on one axis are compared with the "
-                "same model.  The std::vector / std::array<T,max+1> / std::map fillers and their cumulative forms are compared "
+                "same model -- each of these post-operations twice, for every histogram dimension instantiated (1-4): on the integer "
+                "counts (exact) and, after normalize(), on fractional bins against count/total in long double (1e-9; corner bin == 1, "
+                "marginals sum to 1, in-range bins keep their fractional values).  The std::vector / std::array<T,max+1> / std::map fillers and their cumulative forms are compared "
                 "with the loop and with the sparse histogram of the gray conversion, with and without accumulate.  Seeded "
                 "contents; ASan+UBSan+libstdc++ assertions armed."),
     level_note="contents, masks and limit boxes are seeded samples within each (type, shape, bin width, variant) class; trusts the std::map oracle",
@@ -37,5 +39,7 @@ CFG = dict(
     runs=[run("c19_asan%d" % k, shards=4 if k < 4 else 8,
               min_cases={"quick": [196, 98, 98, 98, 196][k], "thorough": [400, 200, 200, 200, 400][k]}) for k in range(_PARTS)],
     require_obs=["fill.dense.accumulate*", "fill.dense.replace*", "fill.sparse.accumulate*", "fill.sparse.replace.mask.limits",
-                 "fill.dense-noop.*", "std.accumulate", "std.replace"],
+                 "fill.dense-noop.*", "std.accumulate", "std.replace",
+                 "post.normalized.d1.fractional", "post.normalized.d2.fractional", "post.normalized.d3.fractional", "post.normalized.d4.fractional",
+                 "cumulative.corner.normalized.d1", "cumulative.corner.normalized.d2", "cumulative.corner.normalized.d3", "cumulative.corner.normalized.d4"],
 )
